@@ -262,6 +262,12 @@ func runRPCFirst(args []string) {
 	ioutil.WriteFile(statusFile, []byte("OK\n"), 0644)
 }
 
+// wideDepth >= 0 selects the "wide / deep" workload (command rpcwide): every caller is on endpoint A, makes plain
+// calls only, and every call is a chain of wideDepth nested call-backs bouncing between the two ends - so that
+// `callers` handlers (wide) or wideDepth/2 handlers (deep) are in flight on one connection at the same time.
+// (kept below the Remote's documented limit of pending calls)
+var wideDepth = -1
+
 func runRPCStress(args []string) {
 	if len(args) != 7 {
 		fatal("usage: vipsim rpcstress seed callers calls mem|fifo|pipe lazy trace status")
@@ -304,7 +310,11 @@ func runRPCStress(args []string) {
 	remotes := map[string]*jsonrpc2.Remote{"A": mk("A", ca), "B": mk("B", cb)}
 	var wg sync.WaitGroup
 	outstanding := sync.Map{}
-	for _, ep := range []string{"A", "B"} {
+	eps := []string{"A", "B"}
+	if wideDepth >= 0 {
+		eps = []string{"A"}
+	}
+	for _, ep := range eps {
 		for c := 0; c < callers; c++ {
 			wg.Add(1)
 			go func(ep string, c int) {
@@ -315,6 +325,9 @@ func runRPCStress(args []string) {
 					tok := fmt.Sprintf("%s%d.%d", ep, c, i)
 					depth := []int{0, 0, 0, 1, 1, 2}[rng.Intn(6)]
 					mode := []string{"plain", "plain", "plain", "cancel", "late"}[rng.Intn(5)]
+					if wideDepth >= 0 {
+						depth, mode = wideDepth, "plain"
+					}
 					if fakeClock == false && mode == "late" {
 						mode = "cancel"
 					}
